@@ -436,3 +436,23 @@ pub fn forcing_program(call: &str, ret: &Ty) -> String {
     };
     format!("{PRELUDE}\nfn main()->bool{{ let v_r = {forced}; true }}\n")
 }
+
+/// ill-typed variants: the call with one argument replaced by a value of another type. They are
+/// rejected by the compiler with a message that lists the overloads considered - a text that
+/// must not vary between compilations.
+pub fn ill_typed_texts() -> Vec<(String, String)> {
+    let (calls, _, _) = calls();
+    let mut out = vec![];
+    for c in &calls {
+        for (i, t) in c.arg_types.iter().enumerate() {
+            let wrong = match t {
+                Ty::Str => "1",
+                Ty::Int | Ty::Generic(_) | Ty::Float | Ty::Bool => "\"zz\"",
+                _ => "true",
+            };
+            let call = substituted(c, &[(i, wrong)]);
+            out.push((format!("{} ill-typed arg{i}", c.label), format!("{PRELUDE}\nfn main()->bool{{ let v_r = {call}; true }}\n")));
+        }
+    }
+    out
+}
